@@ -17,11 +17,22 @@ def grammars():
     return S.synthetic_grammars() + S.real_grammars() + [S.mixed_head_grammar(), S.dense_mixed_grammar()]
 
 
+def score_all(M, u, X, pen):
+    """(count, |D|) scores of all derivations; entries at minus infinity make exactly the derivations that use them minus infinity"""
+    Xd = X.astype(np.float64)
+    neg = np.isneginf(Xd)
+    if not neg.any():
+        return Xd @ M.T - pen * u[None, :]
+    sc = np.where(neg, 0.0, Xd) @ M.T - pen * u[None, :]
+    uses = (neg.astype(np.float64) @ (M > 0).astype(np.float64).T) > 0
+    return np.where(uses, -np.inf, sc)
+
+
 def oracle_best(M, u, Mt, X, pen, adm_mask=None):
     """max over derivations of the statement's score; -inf where none. adm_mask (count, n*T) bool or None"""
     if M.shape[0] == 0:
         return np.full(X.shape[0], -np.inf), np.zeros(X.shape[0], dtype=np.int64)
-    sc = X.astype(np.float64) @ M.T - pen * u[None, :]
+    sc = score_all(M, u, X, pen)
     if adm_mask is not None:
         bad = ((~adm_mask).astype(np.float64) @ Mt.T) > 0
         sc = np.where(bad, -np.inf, sc)
@@ -284,12 +295,18 @@ def plan(tier):
                 for base in (-1.0, 'g1', 'g2', 'g3'):
                     d = 1 if tier == 'quick' else (deepest(N, 3, 200000, gi=gi, n=n) or 1)
                     shards.append(('dev', gi, n, V4, base, d, dict(unary_penalty=0.5)))
+        # entries at minus infinity (a tag or an attachment the model rules out): derivations that avoid them must still be found
+        if not real:
+            for n in (1, 2, 3):
+                shards.append(('dev', gi, n, [float('-inf'), 0.0], -1.0, 2 if S.n_entries(n, T) <= 30 else 1, dict(unary_penalty=0.5)))
         # the default unary penalty 0.1 is not representable: one tolerance-judged family per grammar with unary rules
         if any(g.unary(c) for c in g.tags) and not real:
             for n in (1, 2, 3):
                 shards.append(('dev', gi, n, V4, -1.0, 1, dict(unary_penalty=0.1)))
         # beam configurations ride on the deviation sets
         if T > 1:
+            # beta = 0 leaves the filter on without excluding anything; a tag 150 nats below the best one stays available
+            shards.append(('dev', gi, 2, [0.0, -1.0, -150.0], -1.0, 2 if not real else 1, dict(use_beta=True, beta=0.0, unary_penalty=0.5)))
             for cfgb in (dict(pruning_size=1), dict(use_beta=True, beta=0.01), dict(pruning_size=1, use_beta=True, beta=0.2)):
                 shards.append(('dev', gi, 2, [0.0, -1.0, -4.0, -8.0], -1.0, 2 if not real else 1, dict(cfgb, unary_penalty=0.5)))
                 shards.append(('dev', gi, 3, [0.0, -1.0, -8.0], -1.0, 1 if real else 2, dict(cfgb, unary_penalty=0.0)))
